@@ -110,7 +110,12 @@ def injective(ctx, orders, rows):
 def step_obligations(ctx, rec):
     last_before = None
     cancel_answer = None
+    open_ev = 0
+    n_open = 0
     for (t, hook, pl) in rec.hooks:
+        if hook == 'on_open_position':
+            open_ev = pl['n_events']
+            n_open += 1
         if hook == 'before':
             last_before = pl
             cancel_answer = None
@@ -123,7 +128,16 @@ def step_obligations(ctx, rec):
                     ods = [o for o in active if o.submitted_via == via]
                     if ods:
                         ctx.event('step-with-active-exits')
+                        if n_open >= 2:
+                            ctx.event('second-trade-with-exits')
                     ctx.prove(injective(ctx, ods, rows or []), 'C10:active-exits-match-latest-declaration', {'via': via, 'index': pl['index'], 'n': len(ods)})
+                    # the converse (every declared row has its order) as long as no exit of that kind has been filled in this trade:
+                    # a filled row keeps its place in the declaration but has no active order any more
+                    filled = [pl2['order'] for (k2, t2, pl2) in rec.events[open_ev:pl['n_events']]
+                              if k2 == 'fill' and pl2['order'].submitted_via == via]
+                    if rows and not filled:
+                        ctx.prove(len(ods) == len(rows), 'C10:every-declared-exit-row-has-an-active-order',
+                                  {'via': via, 'index': pl['index'], 'orders': len(ods), 'rows': len(rows)})
             else:
                 ctx.prove(not any(o.submitted_via in ('stop-loss', 'take-profit') or o.reduce_only for o in active),
                           'C10:no-exit-order-active-after-close', {'index': pl['index']})
@@ -180,6 +194,16 @@ def h_session(ctx, n=3, kind='T1', side='long', exch='futures', cancel=True):
         ctx.constrain(And(sl < 99.7, t1 > 100.3, t2 > 100.3, s2 < 99.7) if long else And(sl > 100.3, t1 < 99.7, t2 < 99.7, s2 > 100.3))
         T = S.make_template(side=side, entry=None, stop=[(2.0, sl)], take=[(1.0, t1), (1.0, t2)], qty=2.0, name='T3',
                             reduced_stop=lambda s: [(abs(s.position.qty), s2)])
+    elif kind == 'T7':
+        # consecutive trades: exits declared in on_open_position with the same rows in every trade; the first trade is closed by
+        # its take-profit or stop-loss inside minute 1 and the next entry is made at the close of that minute
+        sl = ctx.real('sl', 50, 200)
+        tp = ctx.real('tp', 50, 200)
+        ctx.constrain(And(sl < 99.7, tp > 100.3) if long else And(sl > 100.3, tp < 99.7))
+        c1 = rows[1][2]
+        ctx.constrain(And(c1 > sl + 0.5, c1 < tp - 0.5) if long else And(c1 < sl - 0.5, c1 > tp + 0.5))
+        T = S.make_template(side=side, entry=None, stop=sl, take=tp, qty=1.0, on_open_exits=True, name='T7', reenter=True,
+                            exit_qty_from_position=(exch == 'spot'))
     elif kind == 'T5':
         sl = ctx.real('sl', 50, 200)
         ctx.constrain(sl < 99.7 if long else sl > 100.3)
@@ -230,14 +254,17 @@ def _jobs(tier):
         add(n=3, kind='T1', side='long', exch='futures')
         add(n=3, kind='T4', side='short', exch='futures')
         add(n=3, kind='T6', side='long', exch='futures', cancel=False)
+        add(n=3, kind='T7', side='long', exch='futures')
     else:
         for side in ('long', 'short'):
-            for kind in ('T1', 'T2', 'T3', 'T4', 'T5'):
+            for kind in ('T1', 'T2', 'T3', 'T4', 'T5', 'T7'):
                 add(n=3, kind=kind, side=side, exch='futures')
             add(n=3, kind='T6', side=side, exch='futures', cancel=False)
         add(n=3, kind='T1', side='long', exch='spot')
         add(n=3, kind='T4', side='long', exch='spot')
         add(n=4, kind='T4', side='long', exch='futures')
+        add(n=4, kind='T7', side='long', exch='futures')
+        add(n=3, kind='T7', side='long', exch='spot')
     return jobs
 
 
@@ -261,7 +288,7 @@ def setup(tier, seed):
         'assumptions': ['floats as reals', 'MARKET entries are stamped with the current price, MARKET exits with the declared price (within the threshold)',
                         'stop-loss/take-profit declared on the valid side of the entry price'],
         'must_reach': ['entry-MARKET', 'entry-LIMIT', 'entry-STOP', 'exit-LIMIT', 'exit-STOP', 'exit-MARKET', 'step-with-active-exits',
-                       'C10:no-exit-order-active-after-close', 'entries-cancelled', 'entries-kept'],
+                       'C10:no-exit-order-active-after-close', 'entries-cancelled', 'entries-kept', 'second-trade-with-exits'],
     }
 
 
